@@ -46,7 +46,8 @@ pub(crate) fn exec(var: Variable, interpreter: &mut Interpreter) -> ExecResult {
 }
 
 pub(crate) fn return_type(lhs: Type) -> Type {
-    let element = lhs.iter_element().unwrap();
+    // the operand is an iterator or of type `!` (which yields nothing)
+    let element = lhs.iter_element().unwrap_or(Type::Never);
     var_type!([element])
 }
 
